@@ -115,6 +115,15 @@ def check_code(s):
     if m and m.group(3) and m.group(4) is None and m.group(2).isascii() and m.group(2).isdigit():
         if dist != int(m.group(1)) * int(m.group(2)):
             return 'relay distance %r, expected legs x leg = %r' % (dist, int(m.group(1)) * int(m.group(2)))
+    elif m and m.group(3) and m.group(3).isascii() and m.group(1).isascii():
+        # legs written in kilometres, miles or with a decimal: legs x (whole metres of the leg, at most one short per leg)
+        from fractions import Fraction
+        suf = m.group(2)[len(m.group(3)):].upper()
+        if suf in ('', 'H', 'K', 'M'):
+            leg = Fraction(m.group(3)) * {'': 1, 'H': 1, 'K': 1000, 'M': 1609}[suf]
+            legs = int(m.group(1))
+            if not (isinstance(dist, int) and legs * (leg - 2) < dist <= legs * leg):
+                return 'relay distance %r, expected legs x leg = %s x %s m' % (dist, legs, leg)
     try:
         dur = u.get_duration_event_time(s)
     except Exception as e:
